@@ -217,9 +217,6 @@ func init() {
 		dst := args[0].(*SliceV)
 		var add []Value
 		for _, t := range s.bytes(it.ts) {
-			if t.op == OpNum {
-				panic(unsupported("Appendf producing Num segment into []byte"))
-			}
 			add = append(add, t)
 		}
 		return it.appendVals(dst, add, fn.Signature.Params().At(0).Type())
@@ -282,6 +279,9 @@ func init() {
 	intercepts["runtime.SetFinalizer"] = noop
 	intercepts["math/bits.Len64"] = nil
 	delete(intercepts, "math/bits.Len64")
+
+	// JSON contract stubs (encoding/json is never executed)
+	intercepts["github.com/couchbase/sync_gateway/base.JSONUnmarshal"] = jsonUnmarshalStub
 
 	// sort
 	intercepts["sort.Slice"] = sortSlice
@@ -516,7 +516,7 @@ func (it *Interp) fmtArg(verb byte, flags string, arg Value) *StrV {
 				if _, isNamed := types.Unalias(iv.t).(*types.Named); !isNamed {
 					return v
 				}
-				if it.prog.LookupMethod(iv.t, nil, "String") == nil && it.prog.LookupMethod(iv.t, nil, "Error") == nil {
+				if it.lookupMethod(iv.t, nil, "String") == nil && it.lookupMethod(iv.t, nil, "Error") == nil {
 					return v
 				}
 			case 'q':
@@ -550,7 +550,7 @@ func (it *Interp) unwrapErr(e *IfaceV) []*IfaceV {
 	if e.t == nil {
 		return nil
 	}
-	if m := it.prog.LookupMethod(e.t, nil, "Unwrap"); m != nil {
+	if m := it.lookupMethod(e.t, nil, "Unwrap"); m != nil {
 		res := m.Signature.Results()
 		if res.Len() == 1 {
 			r := it.call(m, []Value{e.v}, nil)
@@ -585,7 +585,7 @@ func (it *Interp) errorsIs(err, target *IfaceV, depth int) bool {
 			return true
 		}
 	}
-	if m := it.prog.LookupMethod(err.t, nil, "Is"); m != nil && m.Signature.Params().Len() == 1 {
+	if m := it.lookupMethod(err.t, nil, "Is"); m != nil && m.Signature.Params().Len() == 1 {
 		r := it.call(m, []Value{err.v, target}, nil)
 		if t, ok := r.(*Term); ok && it.branch(t) {
 			return true
@@ -622,7 +622,7 @@ func (it *Interp) errorsAs(err *IfaceV, target *IfaceV, fn *ssa.Function) bool {
 			it.store(tp, err.v)
 			return true
 		}
-		if m := it.prog.LookupMethod(err.t, nil, "As"); m != nil {
+		if m := it.lookupMethod(err.t, nil, "As"); m != nil {
 			r := it.call(m, []Value{err.v, target}, nil)
 			if t, ok := r.(*Term); ok && it.branch(t) {
 				return true
@@ -666,3 +666,61 @@ func sortSlice(it *Interp, fn *ssa.Function, args []Value) Value {
 }
 
 var _ = fmt.Sprintf
+
+// jsonUnmarshalStub models base.JSONUnmarshal for the only target shape the kernels use with symbolic
+// input: *string. Contract of encoding/json: input must be one JSON string literal (after optional
+// whitespace); escape-free contents are returned verbatim. Anything needing unescaping is unsupported.
+func jsonUnmarshalStub(it *Interp, fn *ssa.Function, args []Value) Value {
+	ts := it.ts
+	data := it.sliceTerms(args[0].(*SliceV))
+	tgt := args[1].(*IfaceV)
+	pt, ok := types.Unalias(tgt.t).(*types.Pointer)
+	if !ok || !isString(pt.Elem()) {
+		panic(unsupported("JSONUnmarshal into " + fmt.Sprint(tgt.t)))
+	}
+	fail := func() Value { return it.makeError(concStr("json: invalid input for string"), nil) }
+	isWS := func(b *Term) *Term {
+		return ts.OrN(ts.Eq(b, ts.BV(' ', 8)), ts.Eq(b, ts.BV('\t', 8)), ts.Eq(b, ts.BV('\n', 8)), ts.Eq(b, ts.BV('\r', 8)))
+	}
+	i, j := 0, len(data)
+	for i < j && data[i].op != OpNum && it.branch(isWS(data[i])) {
+		i++
+	}
+	for j > i && data[j-1].op != OpNum && it.branch(isWS(data[j-1])) {
+		j--
+	}
+	if j-i < 2 || data[i].op == OpNum || data[j-1].op == OpNum {
+		return fail()
+	}
+	if !it.branch(ts.Eq(data[i], ts.BV('"', 8))) {
+		return fail()
+	}
+	// scan contents up to the closing quote
+	k := i + 1
+	for ; k < j; k++ {
+		b := data[k]
+		if b.op == OpNum {
+			if b.a == 0 {
+				panic(unsupported("JSON string with opaque segment"))
+			}
+			continue
+		}
+		if it.branch(ts.Eq(b, ts.BV('"', 8))) {
+			break
+		}
+		if it.branch(ts.Or(ts.Eq(b, ts.BV('\\', 8)), ts.ULt(b, ts.BV(0x20, 8)))) {
+			if it.branch(ts.ULt(b, ts.BV(0x20, 8))) {
+				return fail() // control characters are invalid inside JSON strings
+			}
+			panic(unsupported("JSON string with escapes"))
+		}
+		if it.branch(ts.Not(ts.ULt(b, ts.BV(0x80, 8)))) {
+			panic(unsupported("JSON string with non-ASCII bytes"))
+		}
+	}
+	if k != j-1 {
+		return fail() // unterminated, or trailing data after the closing quote
+	}
+	it.store(tgt.v.(*Ptr), strFromBytes(data[i+1:k]))
+	return &IfaceV{}
+}
